@@ -486,7 +486,11 @@ def corr(R, mp, cases, stream="valid", budget=0.5, impl=None):
             continue
         R.corr_checked += 1
         R.case((c[0], c[1], repr(c[2])[:200]), nontrivial=True)
-        if mo != im:
+        if mo != im and ("hang",) in (mo, im) and x_hang_prone(expand(c[1])):
+            # a huge decoded count over elements of no size: the model's loop bound (count_limit)
+            # and the implementation's time budget need not coincide
+            R.count("hang_grey_zone", ty_kind(c[1]))
+        elif mo != im:
             R.disagree(f"codec {c[0]} {ty_kind(c[1])}", [c[0], " ".join(ty_tokens(c[1])), repr(c[2:])[:400]], list(mo), list(im))
         res.append((c, mo, im))
     return res
@@ -521,7 +525,7 @@ def gen_type(rng, depth=4, ctx="top", wild=False):
         if r < 0.78:
             return gen_elem(rng)
         if r < 0.84:
-            return ("nbytes", rng.choice([1, 2, 3, 4, 6, 8, 16] + ([-1, 0] if wild or ctx == "last" else [])))
+            return ("nbytes", rng.choice([0, 1, 2, 3, 4, 6, 8, 16] + ([-1] if wild or ctx == "last" else [])))
         if r < 0.92:
             size = rng.choice([1, 2, 4, 8, 16, 82] + ([0] if wild else []))
             cap = None if rng.random() < 0.5 else rng.choice([size, max(0, size - 1), max(0, size - 2)] + ([size + 1, size + 3, 0] if wild else []))
@@ -571,7 +575,11 @@ def fixed_width(td):
             return 4
         if n == "LREAL":
             return 8
+        if n == "DATE_AND_TIME":
+            return 6
         return None
+    if k == "nbytes":
+        return td[1] if td[1] >= 0 else None
     if k == "named":
         return {"IPAddress": 4, "PCCC_ASCII": 2}.get(td[1])
     if k == "fss":
@@ -591,7 +599,7 @@ def gen_fixed_type(rng, depth):
             r = rng.random()
             if r < 0.7:
                 t = ("elem", rng.choice(["BOOL", "SINT", "INT", "DINT", "LINT", "USINT", "UINT", "UDINT", "ULINT", "REAL", "LREAL",
-                                         "BYTE", "WORD", "DWORD", "LWORD", "TIME", "DATE"]))
+                                         "BYTE", "WORD", "DWORD", "LWORD", "TIME", "DATE", "DATE_AND_TIME"])) if rng.random() < 0.9 else ("nbytes", rng.choice([0, 1, 2, 5]))
             elif r < 0.85:
                 sz = rng.choice([1, 2, 4, 8, 12])
                 t = ("fss", sz, "UDINT", rng.choice([None, sz, max(1, sz - 2)]))
@@ -632,6 +640,8 @@ def gen_stag(rng, depth, wild=False):
             ms.append((_name(rng, used), pos, t))
             pos += fixed_width(t)
     size = pos + rng.choice([0, 0, 1, 4])
+    if rng.random() < 0.3:
+        rng.shuffle(ms)        # members are read at their offsets, whatever the order of the list
     if wild and rng.random() < 0.5:
         r = rng.random()
         if r < 0.3 and ms:
@@ -699,6 +709,8 @@ def gen_text(rng, n, cls="latin1"):
         return "".join(chr(rng.randrange(32, 127)) if rng.random() < 0.9 else chr(rng.randrange(0, 128)) for _ in range(n))
     if cls == "latin1":
         return "".join(chr(rng.randrange(32, 127)) if rng.random() < 0.7 else chr(rng.randrange(0, 256)) for _ in range(n))
+    if cls == "astral":
+        return "".join(chr(rng.choice([rng.randrange(32, 127), rng.randrange(0x10000, 0x110000), rng.randrange(0xA0, 0xD800)])) for _ in range(n))
     if cls == "bmp":
         return "".join(chr(rng.choice([rng.randrange(32, 127), rng.randrange(0xA0, 0xD800), rng.randrange(0xE000, 0x10000)])) for _ in range(n))
     return "".join(chr(rng.choice([rng.randrange(32, 127), rng.randrange(0x10000, 0x110000), rng.randrange(0xD800, 0xE000), rng.randrange(0x100, 0x800)]))
@@ -740,9 +752,9 @@ def gen_value(rng, td, big=False):
             w, enc = STR_NAMES[n]
             lim = (1 << (8 * w)) - 1
             ln = str_len(rng, lim, big and w <= 2)
-            return gen_text(rng, ln, "latin1" if enc == "latin1" else rng.choice(["ascii", "bmp"]))
+            return gen_text(rng, ln, "latin1" if enc == "latin1" else rng.choice(["ascii", "bmp", "astral"]))
         if n == "STRINGN":
-            return gen_text(rng, str_len(rng, 65535, big), rng.choice(["ascii", "ascii", "latin1", "bmp"]))
+            return gen_text(rng, str_len(rng, 65535, big), rng.choice(["ascii", "latin1", "latin1", "bmp"]))
         if n == "DATE_AND_TIME":
             return (gen_int(rng, False, 4), gen_int(rng, False, 2))
         if n == "STRINGI":
@@ -1044,6 +1056,10 @@ def x_fixed_width(x):
         return 8 if x[1] else 4
     if k == "bits":
         return x[1]
+    if k == "datetime":
+        return 6
+    if k == "nbytes":
+        return x[1] if x[1] >= 0 else None
     if k == "fss":
         return x[3] + x[1]
     if k == "ip":
@@ -1060,11 +1076,13 @@ def x_fixed_width(x):
 
 def x_consumes(x):
     k = x[0]
-    if k in ("bool", "real", "stringn", "stringi", "ip"):
+    if k in ("bool", "real", "datetime", "stringn", "stringi", "ip"):
         return True
     if k == "int":
         return x[2] > 0
     if k == "bits":
+        return x[1] > 0
+    if k == "nbytes":
         return x[1] > 0
     if k == "str":
         return x[2] > 0
@@ -1080,16 +1098,16 @@ def x_consumes(x):
 
 
 def x_hang_prone(x):
-    """contains an Array(None, T) whose element type does not raise BufferEmptyError at the end of the
-    buffer (Struct(), Array(0, T), a nested Array(None, ..), PCCC types, n_bytes(0)...): decoding may
-    not terminate (property C08); such cases cost a full time budget on the implementation"""
+    """contains an Array(<length type>, T) whose element type can occupy no bytes: a large decoded
+    count then loops that many times over nothing (the model bounds the loop by count_limit, the
+    implementation by the time budget)"""
     k = x[0]
+    if k == "arrp":
+        return not x_consumes(x[3]) or x_hang_prone(x[2]) or x_hang_prone(x[3])
     if k == "arrall":
-        return (not x_consumes(x[1]) and x[1][0] != "nbytes") or (x[1][0] == "nbytes" and x[1][1] == 0) or x_hang_prone(x[1])
+        return x_hang_prone(x[1])
     if k == "arr":
         return x_hang_prone(x[2])
-    if k == "arrp":
-        return x_hang_prone(x[2]) or x_hang_prone(x[3])
     if k == "struct":
         return any(x_hang_prone(t) for _, t in x[2])
     if k == "stag":
@@ -1099,14 +1117,16 @@ def x_hang_prone(x):
 
 def x_always_decodes(x):
     k = x[0]
-    if k in ("bool", "real", "ip"):
+    if k in ("bool", "real", "datetime", "ip"):
         return True
     if k == "int":
         return x[2] > 0
     if k == "bits":
         return x[1] > 0
+    if k == "nbytes":
+        return x[1] >= 0
     if k == "arr":
-        return x_always_decodes(x[2]) and x[2][0] != "nbytes"
+        return x_always_decodes(x[2])
     return False
 
 
@@ -1128,6 +1148,11 @@ def _encodable(enc, s):
         return True
     except UnicodeError:
         return False
+
+
+def _code_units(enc, s):
+    codec, size = {"latin1": ("iso-8859-1", 1), "utf8": ("utf-8", 1), "utf16": ("utf-16-le", 2), "utf32": ("utf-32-le", 4)}[enc]
+    return len(s.encode(codec)) // size
 
 
 def _single_byte(enc, s):
@@ -1183,9 +1208,9 @@ def py_doc_val(x, v):
     if k == "datetime":
         return isinstance(v, tuple) and len(v) == 2 and _is_int(v[0]) and _is_int(v[1]) and 0 <= v[0] < 1 << 32 and 0 <= v[1] < 1 << 16
     if k == "str":
-        return isinstance(v, str) and x[2] > 0 and _int_in_range(x[1], x[2], len(v)) and _encodable(x[3], v)
+        return isinstance(v, str) and x[2] > 0 and _encodable(x[3], v) and _int_in_range(x[1], x[2], _code_units(x[3], v))
     if k == "stringn":
-        return isinstance(v, str) and len(v) < 65536 and v.isascii()
+        return isinstance(v, str) and len(v) < 65536 and _single_byte("latin1", v)
     if k == "stringi":
         p = _stringi_parts(v)
         return p is not None and py_doc_val(p[1], p[0]) and len(p[2]) == 3 and p[2].isascii() and 0 <= p[3] < 65536
@@ -1220,7 +1245,7 @@ def py_doc_val(x, v):
         pre = identity_pre(v)
         return pre is not None and all(_unnamed(n) or (n in pre and py_doc_val(t, pre[n])) for n, t in ms)
     if k == "fss":
-        return x[4] <= x[1] and isinstance(v, str) and x[3] > 0 and _int_in_range(x[2], x[3], len(v[:x[4]])) and _encodable("latin1", v[:x[4]])
+        return isinstance(v, str) and _int_in_range(x[2], x[3], len(v[:x[4]])) and _encodable("latin1", v[:x[4]])
     if k == "stag":
         ms, bits, priv, size = x[1], x[2], x[3], x[4]
         if not stag_layout_ok(ms, size) or len(set([n for n, _, _ in ms] + [n for n, _, _ in bits])) != len(ms) + len(bits):
@@ -1281,31 +1306,17 @@ def x_type_devs(x, out=None):
     (empty <=> wf_ty)"""
     out = [] if out is None else out
     k = x[0]
-    if k == "datetime":
-        out.append("DATE_AND_TIME.encode:arity")
-    elif k == "arrp":
+    if k == "arrp":
         out.append("Array(length-type)")
-    elif k == "nbytes":
-        if x[1] == 0:
-            out.append("n_bytes(0)")
     elif k == "arr":
-        if x[2][0] == "nbytes":
-            out.append("Array:n_bytes-element")
         x_type_devs(x[2], out)
     elif k == "arrall":
-        if x[1][0] == "nbytes":
-            out.append("Array:n_bytes-element")
-        if x[1][0] == "bits":
-            out.append("Array(None,BitArray)")
         x_type_devs(x[1], out)
     elif k == "struct":
         if x[1] == "list":
             out.append("ListIdentityObject:no-encode")
         for _, t in x[2]:
             x_type_devs(t, out)
-    elif k == "fss":
-        if x[1] == 0:
-            out.append("FixedSizeString(0)")
     elif k == "stag":
         for _, _, t in x[1]:
             x_type_devs(t, out)
@@ -1313,13 +1324,14 @@ def x_type_devs(x, out=None):
 
 
 def stag_layout_ok(ms, size):
-    pos = 0
+    """every member of constant width, inside the structure, extents pairwise disjoint (any order)"""
+    ext = []
     for _, off, t in ms:
         w = x_fixed_width(t)
-        if w is None or off < pos:
+        if w is None or off + w > size:
             return False
-        pos = off + w
-    return pos <= size
+        ext.append((off, w))
+    return all(a[0] + a[1] <= b[0] or b[0] + b[1] <= a[0] for i, a in enumerate(ext) for b in ext[i + 1:])
 
 
 def identity_pre(v):
@@ -1353,11 +1365,8 @@ def _devs(x, v, out):
     """value-dependent deviation classes"""
     k = x[0]
     if k == "str":
-        if not _single_byte(x[3], v):
-            out.append("STRING2:nonempty" if x[3] == "utf16" else "string:multi-byte-characters")
-    elif k == "stringn":
-        if v == "":
-            out.append("STRINGN:empty")
+        if x[3] == "utf8" and not v.isascii() or x[3] == "utf32" and v:
+            out.append("string:codec-not-modelled")
     elif k == "stringi":
         p = _stringi_parts(v)
         sub = []
@@ -1368,21 +1377,19 @@ def _devs(x, v, out):
         if e[0] == "bits":
             if len(v) != x[1] * 8 * e[1]:
                 out.append("BitArray[n]:overlong")
-        elif e[0] != "nbytes":
+        else:
             for y in v[:x[1]]:
                 _devs(e, y, out)
     elif k in ("arrall", "arrp"):
         e = x[-1]
-        if e[0] not in ("nbytes", "bits"):
+        if e[0] != "bits":
             for y in v:
                 _devs(e, y, out)
     elif k == "struct":
         ms = x[2]
         if x[1] == "list":
             return
-        src = v
-        if x[1] == "module":
-            src = identity_pre(v)
+        src = identity_pre(v) if x[1] == "module" else v
         vals = [src[n] for n, _ in ms] if isinstance(src, dict) else list(src)
         for (n, t), y in zip(ms, vals):
             _devs(t, y, out)
